@@ -35,6 +35,11 @@ SQFS_COMPRESSOR compressor_get_default(void)
 			sqfs_drop(temp);
 			return cmp_ids[i];
 		}
+
+		/* only a compressor that is not built in is skipped, any other
+		   failure (out of memory) must not silently change the default */
+		if (ret != SQFS_ERROR_UNSUPPORTED)
+			return cmp_ids[i];
 	}
 
 #ifdef WITH_LZO
